@@ -199,6 +199,24 @@ def gen_shifted_repetitive(rng):
     return {"mf": mk_file(target), "patches": [mk_patch(hunks, 0, d, rng.choice([0, 0, 1, 2]))], "expect": (a, b)}
 
 
+CR_TWIN = 1000000
+
+
+def cr_twins(rng, c):
+    """the same case with some lines of the file or of the patch replaced by their CR-LF twins (harness: "<n>\\r\\n"):
+    lines that look alike but are not equal"""
+    c = copy.deepcopy(c)
+    where = rng.choice(["file", "patch", "both"])
+    tw = lambda l: l + CR_TWIN if l < CR_TWIN and rng.random() < 0.5 else l
+    if where in ("file", "both"):
+        c["mf"]["content"] = [tw(l) for l in c["mf"]["content"]]
+    if where in ("patch", "both"):
+        for p in c["patches"]:
+            for h in p["hunks"]:
+                h["rem"] = [tw(l) for l in h["rem"]]
+    return c
+
+
 def gen_random_hunks(rng, maxlen=8):
     """Arbitrary well-formed hunks (contexts equal on both sides) on a highly repetitive file."""
     alphabet = [1, 2]
